@@ -70,6 +70,12 @@ def build_xml(scn):
     '<framelinacc objtype="site" objname="s1"/><subtreecom body="b1"/><actuatorfrc actuator="0"/></sensor>'
   )
   sections = sections.replace('actuator="0"', 'actuator="a0"').replace('<general joint', '<general name="a0" joint')
+  # a tendon with armature: its inertia term is added to M after crb, so stage orderings of crb / tendon_armature / factor_m
+  # matter (step1;step2 back-substitutes with the factor computed in step1)
+  scal = [f"j{i}" + suf for i, k in enumerate(joints, 1) for suf in (("", "b") if k == "hingeslide" else ("",)) if k in ("hinge", "slide", "hingeslide")]
+  if scal:
+    coefs = " ".join(f'<joint joint="{j}" coef="{1.0 - 0.6 * n:.2f}"/>' for n, j in enumerate(scal[:2]))
+    sections += f'<tendon><fixed name="tarm" armature="0.3" damping="0.05">{coefs}</fixed></tendon>'
   floor = '<geom name="floor" type="plane" size="3 3 .1" pos="0 0 -0.12" margin="0.05"/>'
   return space.tree_xml(
     scn["parents"],
